@@ -294,6 +294,10 @@ func c08UfsSlowHost(held string, dotu bool, maxpend, P int) Scenario {
 			send(c0, &wire.Msg{Type: wire.Tread, Fid: 5, Count: 16})
 			send(c0, twalk(0, 1, 6)) // a clone of the fid being opened
 			send(c0, &wire.Msg{Type: wire.Tstat, Fid: 3})
+			// reads and writes that name the fid being opened (it is not open yet: they are
+			// answered, with an error, without waiting for the host)
+			send(c0, &wire.Msg{Type: wire.Tread, Fid: 1, Count: 16})
+			send(c0, &wire.Msg{Type: wire.Twrite, Fid: 1, Data: []byte("w")})
 		}
 		vs.Idle()
 		vs.Window(false)
